@@ -12,6 +12,8 @@ Local Open Scope Z_scope.
    - a both-literal comparison with an else branch (if-else, ternary);
    - len()/cap() as the test of a case in a condition-less switch;
    - a stray case;
+   - an if-ok block with the negated form (!ok) whose flag variable is not a plain name (it is
+     looked up again as a path);
    - {% ctx x = "" %};
    - a lazybreak directly inside a bound tag at template / for-else level. *)
 Fixpoint wf_supported (top : bool) (a : ast) : bool :=
@@ -20,6 +22,8 @@ Fixpoint wf_supported (top : bool) (a : ast) : bool :=
   | ATernary c _ _ => negb (senseless c)
   | AIf c th el he =>
     negb (he && senseless c) && forallb (wf_supported false) th && forallb (wf_supported false) el
+  | AIfOK _ okv _ _ neg th el _ =>
+    (negb neg || simple_name okv) && forallb (wf_supported false) th && forallb (wf_supported false) el
   | ASwitch arg cases dflt _ =>
     forallb (fun a => match a with
                       | ACase cnd body =>
@@ -82,6 +86,11 @@ Section Main.
       eapply item_ok_node; [reflexivity|reflexivity|].
       apply if_ref; [apply all_items; assumption|apply all_items; assumption|].
       destruct (he && senseless c); [discriminate W1|reflexivity].
+    - cbn [wf_supported] in W. apply andb_true_iff in W. destruct W as [W W3].
+      apply andb_true_iff in W. destruct W as [W1 W2].
+      eapply item_ok_node; [reflexivity|reflexivity|].
+      apply ifok_ref; [apply all_items; assumption|apply all_items; assumption|].
+      intros ->. exact W1.
     - cbn [wf_supported] in W. apply andb_true_iff in W. destruct W as [W1 W2].
       eapply item_ok_node; [reflexivity|reflexivity|].
       apply switch_ref; [|apply all_items; assumption].
